@@ -640,6 +640,30 @@ fn default_by_reference_leg(ctx: &mut Ctx, host: &Host) {
     text_leg(ctx, host, "default-by-reference-to-structured-value", &texts, &[0, 1, 5]);
 }
 
+/// the one type reference that is a Rust keyword as written, `Self` (every other keyword starts
+/// with a small letter): each kind of type under that name, used by another type and governing
+/// a value
+fn keyword_type_name_leg(ctx: &mut Ctx, host: &Host) {
+    let kinds = [
+        "SEQUENCE OF INTEGER (0..5)",
+        "SET OF BOOLEAN",
+        "SEQUENCE OF SEQUENCE { a INTEGER }",
+        "SEQUENCE { a INTEGER, next Self OPTIONAL }",
+        "CHOICE { a NULL, b SEQUENCE OF Self }",
+        "ENUMERATED { x, y }",
+        "INTEGER (0..7)",
+        "SET { a BOOLEAN }",
+        "BIT STRING { first(0) }",
+    ];
+    let mut texts = vec![];
+    for k in kinds {
+        for tagging in ["AUTOMATIC", "EXPLICIT", "IMPLICIT"] {
+            texts.push(format!("Kw-Mod DEFINITIONS {tagging} TAGS ::= BEGIN\nSelf ::= {k}\nUser ::= SEQUENCE {{ s [0] Self, l [1] SEQUENCE OF Self, o [2] Self OPTIONAL }}\nAlias ::= Self\nEND\n"));
+        }
+    }
+    text_leg(ctx, host, "type-reference-spelled-like-a-keyword", &texts, &[0, 3]);
+}
+
 pub fn run(tier: Tier, seed: u64, replay: Option<String>) -> i32 {
     let mut ctx = Ctx::new("C01", tier, seed);
     ctx.rule = "module sets from the §3 grammar generator (proptest choice streams) x RasnConfig round-robin; \
@@ -797,6 +821,7 @@ pub fn run(tier: Tier, seed: u64, replay: Option<String>) -> i32 {
     }
     module_identifier_leg(&mut ctx, &host);
     default_by_reference_leg(&mut ctx, &host);
+    keyword_type_name_leg(&mut ctx, &host);
     ctx.extra.insert("premise_satisfied".into(), json!(premise));
     ctx.extra.insert("compile_outcomes".into(), json!(outcomes));
     ctx.extra.insert("generated_inputs".into(), json!(done));
